@@ -227,11 +227,29 @@ Definition set_dither (o : opts) (c : lcfg) : lcfg :=
       (if negb (Z.land (oPreprocessing o) F.dither_mask =? 0) then Some (oQuality o) else n) p q r.
 
 (** encodeLossyWithAlpha, from [cfg := lossy.DefaultConfig(int(opts.Quality))] to the
-    hasAlpha statement; [q] = int(opts.Quality). *)
-Definition lossy_config (o : opts) (q : Z) (has_alpha : bool) : lcfg :=
+    hasAlpha statement, without the clamps; [q] = int(opts.Quality). *)
+Definition lossy_config_pre (o : opts) (q : Z) (has_alpha : bool) : lcfg :=
   let c := fold_left (apply_prop o) F.prop_table (lossy_default q) in
   let c := set_dither o c in
   set_lint F.lfld_HasAlpha (if has_alpha then fst F.hasalpha_vals else snd F.hasalpha_vals) c.
+
+(** The clamps [if cfg.G < cfg.H { cfg.G = cfg.H }] (op 0) / [>] (op 1) found in the propagation
+    block (none on the tree this model was first written against), optionally guarded by
+    [cfg.TargetSize > 0 || cfg.TargetPSNR > 0].  The translator checks that no later statement
+    writes the fields involved, so applying them after the other statements is faithful. *)
+Definition apply_clamp (c : lcfg) (r : Z * Z * Z) : lcfg :=
+  let '(op, g, h) := r in
+  set_lint g (if (if op =f? 0 then get_lint g c <? get_lint h c else get_lint g c >? get_lint h c)
+              then get_lint h c else get_lint g c) c.
+
+Definition apply_clamps (c : lcfg) : lcfg :=
+  let c' := fold_left apply_clamp F.quality_clamp_rule c in
+  if F.quality_clamp_guarded
+  then (if (cTargetSize c >? 0) || fl_gt (cTargetPSNR c) 0 then c' else c)
+  else c'.
+
+Definition lossy_config (o : opts) (q : Z) (has_alpha : bool) : lcfg :=
+  apply_clamps (lossy_config_pre o q has_alpha).
 
 (** lossy.AlphaEncoderConfig *)
 Record acfg : Type := mkA { aQuality : Z; aMethod : Z; aFilter : Z; aEffort : Z }.
